@@ -162,7 +162,21 @@ func (s *simClient) List(ctx context.Context, list client.ObjectList, opts ...cl
 	if stop, err := early(call, k); stop {
 		return err
 	}
-	return s.finish(call, k, s.c.fake.List(ctx, list, opts...))
+	err := s.c.fake.List(ctx, list, opts...)
+	if err == nil && s.c.ListOrder != nil {
+		// a cache-backed client returns list items in no particular order
+		if items, e := meta.ExtractList(list); e == nil && len(items) > 1 {
+			perm := s.c.ListOrder(kind, len(items))
+			if len(perm) == len(items) {
+				out := make([]runtime.Object, len(items))
+				for i, j := range perm {
+					out[i] = items[j]
+				}
+				_ = meta.SetList(list, out)
+			}
+		}
+	}
+	return s.finish(call, k, err)
 }
 
 func (s *simClient) Create(ctx context.Context, obj client.Object, opts ...client.CreateOption) error {
@@ -251,7 +265,7 @@ func (s *simClient) Status() client.SubResourceWriter { return &simStatus{s: s} 
 func (s *simClient) SubResource(sub string) client.SubResourceClient {
 	return s.c.fake.SubResource(sub)
 }
-func (s *simClient) Scheme() *runtime.Scheme   { return Scheme }
+func (s *simClient) Scheme() *runtime.Scheme     { return Scheme }
 func (s *simClient) RESTMapper() meta.RESTMapper { return s.c.fake.RESTMapper() }
 func (s *simClient) GroupVersionKindFor(obj runtime.Object) (schema.GroupVersionKind, error) {
 	return s.c.fake.GroupVersionKindFor(obj)
